@@ -106,6 +106,8 @@ func phaseTemplates(eco, tier string) []string {
 		t = expandAll("{d}.{d}.{d}(|-{l}|-{d}|-{l}.{d})(|+{d})")
 	case "composer":
 		t = expandAll("{d}.{d}(|.{d})(|-alpha{d}|-beta|-RC{d}|-patch{d}|pl{d})")
+		// branch versions: named and numeric dev branches next to releases
+		t = append(t, "dev-{l}{l}{l}{l}", "{d}.x-dev", "{d}.{d}.x-dev")
 	case "golang":
 		t = expandAll("v{d}.{d}.{d}(|-{l}|-{l}.{d})(|+incompatible)")
 		// the three pseudo-version forms next to the ordinary pre-releases they must interleave with
